@@ -40,7 +40,8 @@ def run(ck):
         ck.coqchk(["GM.Props.C19"])
     ck.evaluations = (ck.stats.get("model_cases", 0) + ck.stats.get("after_close_checks", 0) + ck.stats.get("close_flushes_checks", 0) +
                       ck.stats.get("close_closes_carrier_checks", 0) + ck.stats.get("error_closes_carrier_checks", 0) +
-                      ck.stats.get("intact_checks", 0) + ck.stats.get("loopback_runs", 0))
+                      ck.stats.get("intact_checks", 0) + ck.stats.get("loopback_runs", 0) + ck.stats.get("stalled_send_scenarios", 0) +
+                      ck.stats.get("timeout_rearmed_checks", 0) + ck.stats.get("close_behind_send", 0))
     ck.distinct = ck.stats.get("model_distinct", 0)
     ck.rule = ("scripts: sends/receives, then the event that kills the connection (Close, carrier write failure, unencodable packet, receive "
                "error), then buffered/flushed sends, timer waits, receives, second Close — compared step by step with cn_step; concurrent: "
@@ -50,5 +51,9 @@ def run(ck):
                "missing, dead connection: flushed send fails, buffered send fails after the delay, receives end in an error, nothing hangs; "
                "Close must call carrier.Close even when its flush fails (write fault injected right before Close / after a failed timer flush, "
                "with a Receive pending); bytes held in a gated carrier Write must stay intact while the same connection receives and another "
-               "sends large packets (shared buffer pool, GOMAXPROCS(1)); real TCP and WebSocket pairs (8 runs quick, 60 thorough). "
+               "sends large packets (shared buffer pool, GOMAXPROCS(1)); a sender held inside Send while a third goroutine closes; a Send stalled in "
+               "the carrier write (net.Pipe under the real wsStream / NetConn) while the read timeout expires, garbage arrives or Close is called; the "
+               "read timeout re-armed after every packet; Close with a connected silent peer unblocks a pending Receive; buffered sends + Close "
+               "over real pairs; real TCP and WebSocket pairs (8 runs quick, 60 thorough); harness watchdog and panic recovery turn a stuck or "
+               "panicking call into a verdict; see audit/C19.md. "
                "distinct_nontrivial = distinct (operation sequence, result sequence) classes + distinct wire shapes")
